@@ -243,7 +243,7 @@ func init() {
 				r := stride.Run(cfg, core.Pkgs(asm...))
 				res.Merge(r)
 				pu := paramuse.Run(cfg, core.Pkgs(append([]string{"./floats/...", "./cmplxs/...", "./internal/math32", "./internal/cmplx64"}, asm...)...))
-				pu.Floor("parameters", 400)
+				pu.Floor("parameters", 300)
 				res.Merge(pu)
 			}
 		},
